@@ -1,4 +1,4 @@
-use ohmc::onvec::{C05Raw, B};
+use ohmc::onvec::{C05Raw, C06, C08, B};
 use ohmc::props::c05::*;
 use ohmc_core::explore::*;
 use ohmc_core::uni::*;
@@ -54,10 +54,25 @@ fn main() {
     let lu1 = lspec1.universe();
     let capl = if quick { 1_000_000 } else { 40_000_000 };
     ctx.run_slice(Slice::new(format!("lax-typed-single[{} first {}]", lspec1.name(), capl.min(lu1.count())), lu1.count().min(capl), |i, loc| check_lax_single(&lu1.get(i), loc)));
+    // the other checked constructors on raw data (shared with C06 / C08)
+    let c6 = C06::new(true);
+    let n6 = c6.families.iter().find(|f| f.0 == "new").unwrap().1;
+    ctx.run_slice(Slice::new("raw-FiniteFunction::new", n6, |i, loc| c6.run("new", i, loc)));
+    let c8 = C08::new(true);
+    for fam in ["new", "operations_new"] {
+        let cnt = c8.families.iter().find(|f| f.0 == fam).unwrap().1;
+        let c = &c8;
+        ctx.run_slice(Slice::new(format!("raw-IndexedCoproduct/Operations::{}", fam), cnt, move |i, loc| c.run(fam, i, loc)));
+    }
+    // deletions keep lax diagrams well-formed
+    let dspec = if quick { Spec::lax(3, 1, 2, 2, 1, 1, 1, 1) } else { Spec::lax(3, 2, 2, 2, 1, 2, 2, 1) };
+    let du = dspec.universe();
+    let capd = if quick { 300_000 } else { 20_000_000 };
+    ctx.run_slice(Slice::new(format!("lax-deletions-stay-well-formed[{} first {}]", dspec.name(), capd.min(du.count())), du.count().min(capd), |i, loc| check_lax_deletions(&du.get(i), loc)));
     let meta = Meta {
         rule: "every public constructor and categorical operation of the strict and lax modules over the listed universes: each result is decoded with the deep well-formedness checker (one source and one target list per hyperedge, sizes sum to the incidence length, sources.target = sum+1, every node reference and interface entry in range, declared codomains equal to the node count) and its type compared with the promised one; raw data for Hypergraph::new / OpenHypergraph::new with every combination of mismatched counts and codomains (<=3); the functor, optic and conversion outputs are deep-checked inside C10, C12, C13, C14".into(),
         bounds: "<=2-3 nodes, <=1-2 hyperedges, arity <=2, interfaces <=2, 2+2 labels; batches of <=2 (quick) / <=3 operations with types of length <=2".into(),
-        assumptions: vec!["FiniteFunction::new, IndexedCoproduct::new/from_semifinite and Operations::new are exercised exhaustively on raw data in C06 and C08".into()],
+        assumptions: vec!["the raw-data sweeps of FiniteFunction::new, IndexedCoproduct::new/from_semifinite and Operations::new are the same code as in C06 / C08".into()],
         explanation: "explicit enumeration; well-formedness is checked on the raw public fields, types by reading labels through the interfaces".into(),
     };
     std::process::exit(ctx.finish(meta));
